@@ -178,7 +178,7 @@ open RsslVerif.Model.PipelineTyper RsslVerif.Gen.PipelineTables
     the block is processed, not against a table built earlier. -/
 theorem typer_shape_as_modelled :
     typerShape = ⟨true, true, true, true, true, true, true, true, true, true, true, true, true, true, true, true, true,
-      true, true, true, true⟩ := by decide
+      true, true, true, true, true, true⟩ := by decide
 
 /-- everything pipelines.rs may reach through the typer context: the context itself (handed on to the expression
     checker), the module (handed to the constant evaluator), the function registry (read only) and the pipeline list -/
@@ -478,6 +478,170 @@ example : (typeCheck (deletePipes (· == "P1")
     (fun s => s.pipes.map (·.name)) = some ["P1"] := by decide
 
 
+/-! ## what a block sees of the registry: the entry functions it names, with the attributes of their definitions -/
+
+theorem mem_annotateFrom {k : Nat} {props : List (String × Val)} {p : Nat} {n : String} {v : Val}
+    (h : (p, n, v) ∈ annotateFrom k props) : (n, v) ∈ props := by
+  induction props generalizing k with
+  | nil => simp [annotateFrom] at h
+  | cons x xs ih =>
+    simp only [annotateFrom, List.mem_cons] at h
+    rcases h with h | h
+    · have h1 : n = x.1 := by simpa using congrArg (fun t => t.2.1) h
+      have h2 : v = x.2 := by simpa using congrArg (fun t => t.2.2) h
+      exact List.mem_cons.2 (Or.inl (by rw [h1, h2]))
+    · exact List.mem_cons_of_mem _ (ih h)
+
+theorem entryPass_congr (reg reg' : List FnDecl) (l : List (Nat × String × Val))
+    (h : ∀ p n name, (p, n, Val.single (.ident name)) ∈ l → lookupEntry reg name = lookupEntry reg' name) :
+    entryPass reg l = entryPass reg' l := by
+  induction l with
+  | nil => rfl
+  | cons x xs ih =>
+    obtain ⟨p, n, v⟩ := x
+    have ih' := ih (fun p n name hm => h p n name (List.mem_cons_of_mem _ hm))
+    have ha : ∀ st, addStage reg st v p = addStage reg' st v p := by
+      intro st
+      cases v with
+      | agg ps => rfl
+      | single sc =>
+        cases sc with
+        | ident name => simp only [addStage, h p n name (List.mem_cons_self ..)]
+        | _ => rfl
+    simp only [entryPass, ha, ih']
+
+/-- **A block depends on the registry only through the entry functions it names.**  Two registries that answer the entry
+    lookup alike for every identifier the block uses as a property value give the same IR pipeline or the same
+    diagnostic.  In particular a function whose `numthreads` attribute does not evaluate (`badThreads`), a prototype, a
+    template or an overload elsewhere in the file is invisible to every block that does not name it - and the
+    location-less `state requires an integer argument` arises exactly in the blocks that do. -/
+theorem elabCore_depends_on_named_entries (reg reg' : List FnDecl) (d : PipeDef)
+    (h : ∀ n name, (n, Val.single (.ident name)) ∈ d.props → lookupEntry reg name = lookupEntry reg' name) :
+    elabCore reg d = elabCore reg' d := by
+  have he : entryPass reg (annotate d.props) = entryPass reg' (annotate d.props) :=
+    entryPass_congr reg reg' _ (fun p n name hm => h n name (mem_annotateFrom hm))
+  simp only [elabCore, he]
+
+/-- **The thread-group size is the one written on the definition.**  A prototype registered first gives the entry no
+    attributes: after the definition the registry entry has the definition's `numthreads` (none if the definition has
+    none, whatever the prototype said); a prototype repeated *after* the definition changes nothing. -/
+theorem attributes_from_definition (reg : List FnDecl) (p d : FnDecl) (hnew : reg.any (sameFn p) = false)
+    (hs : sameFn d p = true) (hp : p.hasBody = false) (hd : d.hasBody = true) :
+    registerFn (registerFn reg p) d =
+      reg ++ [{ p with hasBody := true, threads := d.threads, badThreads := d.badThreads }] ∧
+    registerFn (registerFn reg d) p = registerFn reg d := by
+  have hs' : sameFn p d = true := by
+    simp only [sameFn, Bool.and_eq_true, beq_iff_eq] at hs ⊢
+    exact ⟨hs.1.symm, hs.2.symm⟩
+  have hnew' : reg.any (sameFn d) = false := by
+    rw [List.any_eq_false] at hnew ⊢
+    intro x hx hdx
+    apply hnew x hx
+    simp only [sameFn, Bool.and_eq_true, beq_iff_eq] at hs hdx ⊢
+    exact ⟨hs.1 ▸ hdx.1, hs.2 ▸ hdx.2⟩
+  have hmap : ∀ (f : FnDecl) (b : Bool), reg.any (sameFn f) = false →
+      reg.map (fun g => if (sameFn f g && b) = true then { g with hasBody := true, threads := f.threads, badThreads := f.badThreads } else g) = reg := by
+    intro f b hf
+    rw [List.any_eq_false] at hf
+    conv => rhs; rw [← List.map_id reg]
+    apply List.map_congr_left
+    intro g hg
+    have : sameFn f g = false := by simpa using hf g hg
+    simp [this]
+  constructor
+  · simp only [registerFn, hnew, Bool.false_eq_true, if_false, List.any_append, List.any_cons, List.any_nil, hs,
+      Bool.or_true, Bool.or_false, if_true, List.map_append, List.map_cons, List.map_nil, hd, Bool.and_true]
+    rw [show (reg.map fun g => if sameFn d g = true then { g with hasBody := true, threads := d.threads, badThreads := d.badThreads } else g) = reg from by
+      simpa using hmap d true hnew']
+  · simp only [registerFn, hnew', Bool.false_eq_true, if_false, List.any_append, List.any_cons, List.any_nil, hs',
+      Bool.or_true, Bool.or_false, if_true, hp, Bool.and_false, List.map_append, List.map_cons, List.map_nil]
+    simp
+
+/-- a compute entry whose `numthreads` does not evaluate -/
+def fnBad (n : String) : FnDecl :=
+  { name := n, shape := "c", isTemplate := false, hasBody := true, threads := none, badThreads := true }
+
+/-! Non-vacuity: the block that names the function with the unevaluable `numthreads` is rejected without a location,
+    a block that does not is unaffected (same IR element with the bad function's block deleted); prototype `[2,1,1]` +
+    definition `[4,1,1]` gives 4,1,1; prototype with, definition without the attribute gives none. -/
+example : (match typeCheck [.func (fnCs "a"), .func (fnBad "b"), .pipe (blockCs "P0" "a"), .pipe (blockCs "P1" "b")] with
+    | .error (n, e) => some (n, e.kind, e.path) | .ok _ => none) = some ("P1", .threadsNotInteger, 0) := by decide
+example : (typeCheck [.func (fnCs "a"), .func (fnBad "b"), .pipe (blockCs "P0" "a")]).toOption.map
+    (fun s => s.pipes.map (fun p => p.stages.map (·.tgs))) = some [[some (8, 1, 1)]] := by decide
+example : (typeCheck [.func { fnCs "a" with hasBody := false, threads := some (2, 1, 1) },
+      .func { fnCs "a" with threads := some (4, 1, 1) }, .pipe (blockCs "P0" "a")]).toOption.map
+    (fun s => s.pipes.map (fun p => p.stages.map (·.tgs))) = some [[some (4, 1, 1)]] := by decide
+example : (typeCheck [.func { fnCs "a" with hasBody := false, threads := some (2, 1, 1) },
+      .func { fnCs "a" with threads := none }, .func { fnCs "a" with hasBody := false, threads := some (2, 1, 1) },
+      .pipe (blockCs "P0" "a")]).toOption.map
+    (fun s => s.pipes.map (fun p => p.stages.map (·.tgs))) = some [[none]] := by decide
+
+
+/-! ## the module a pipeline is built from: declared functions **and** what the blocks' property values instantiate -/
+
+/-- `compile()` with a build function that sees the whole module: the function registry of the declarations and the
+    template instantiations left behind by the property values of the file's Pipeline blocks -/
+def compileFileM (build : List FnDecl × List String → Option (Pipeline IrPipe) → Except ε β) (items : List Item) (m : Mode) :
+    FileOutcome β ε :=
+  compileFile (fun reg => build (reg, instancesOf items)) items m
+
+theorem instancesOf_deletePipes (keep : String → Bool) (items : List Item)
+    (h : ∀ d, Item.pipe d ∈ items → keep d.name = false → instantiatedBy d = []) :
+    instancesOf (deletePipes keep items) = instancesOf items := by
+  induction items with
+  | nil => rfl
+  | cons it rest ih =>
+    have ih' := ih (fun d hd => h d (List.mem_cons_of_mem _ hd))
+    cases it with
+    | func f => rw [deletePipes_func]; simp only [instancesOf, ih']
+    | pipe d =>
+      cases hk : keep d.name with
+      | true => rw [deletePipes_pipe_keep _ _ _ hk]; simp only [instancesOf, ih']
+      | false =>
+        rw [deletePipes_pipe_drop _ _ _ hk]
+        simp only [instancesOf, ih', h d (List.mem_cons_self ..) hk, List.nil_append]
+
+/-- **Independence with the whole module in view — the part that holds** (`_partial`: it needs the hypothesis that the
+    deleted blocks have no property value that instantiates a function template; without it the statement is false on
+    the real compiler, see `module_depends_on_instantiating_block`).  For an accepted file, compiling pipeline `n` by
+    name gives the same outcome with or without the other blocks, for any build function of (function registry,
+    instantiations, selected pipeline). -/
+theorem independent_of_other_pipelines_module_partial
+    (build : List FnDecl × List String → Option (Pipeline IrPipe) → Except ε β)
+    (items : List Item) (s : TState) (h : typeCheck items = .ok s) (keep : String → Bool) (n : String)
+    (hk : keep n = true)
+    (hinst : ∀ d, Item.pipe d ∈ items → keep d.name = false → instantiatedBy d = []) :
+    compileFileM build (deletePipes keep items) (.named n) = compileFileM build items (.named n) := by
+  unfold compileFileM
+  rw [instancesOf_deletePipes keep items hinst]
+  exact independent_of_other_pipelines_file _ items s h keep n hk
+
+/-- the reduced defect program (corpus/C17.txt): `P0` carries `DefaultBindGroup = sizeof(wide_tf<uint>(1u))` -/
+def instWitness : List Item :=
+  [.func { name := "wide_tf", shape := "z", isTemplate := true, hasBody := true, threads := none },
+   .func (fnCs "cs_0"), .func (fnCs "cs_1"),
+   .pipe { name := "P0", props := [("ComputeShader", .single (.ident "cs_0")), ("DefaultBindGroup", .single (.sizeofInst "wide_tf"))] },
+   .pipe (blockCs "P1" "cs_1")]
+
+/-- a build function that returns the instantiations it finds in the module (the emitted source contains them) -/
+def buildShowsInstances : List FnDecl × List String → Option (Pipeline IrPipe) → Except Unit (List String) :=
+  fun m _ => .ok m.2
+
+/-- **Negation, with a concrete witness** (replayed on the real compiler by the corpus; known finding
+    `property-value-instantiates-template`): the file is accepted (`P0` gets default bind group 4), block `P1` has no
+    instantiating value, and yet pipeline `P1` compiled by name is built from a module that contains the instantiation
+    `wide_tf<uint>` when block `P0` is in the file and from one that does not when `P0` is deleted - so the returned
+    source of `P1` depends on whether another pipeline is defined. -/
+theorem module_depends_on_instantiating_block :
+    (typeCheck instWitness).toOption.map (fun s => s.pipes.map (fun p => (p.name, p.group))) = some [("P0", 4), ("P1", 0)] ∧
+    instantiatedBy (blockCs "P1" "cs_1") = [] ∧
+    (match compileFileM buildShowsInstances instWitness (.named "P1") with
+      | .out (.ok [x]) => some x | _ => none) = some ["wide_tf"] ∧
+    (match compileFileM buildShowsInstances (deletePipes (· == "P1") instWitness) (.named "P1") with
+      | .out (.ok [x]) => some x | _ => none) = some [] := by
+  refine ⟨by decide, by decide, by decide, by decide⟩
+
+
 /-! ## the reported HLSL entry name (composition with C15's model of the name map) -/
 
 open RsslVerif.Model RsslVerif.Model.PipelineNames in
@@ -529,7 +693,7 @@ theorem reported_entry_names_distinct {reserved : List String} {o : Others} {reg
 def soakOthers : RsslVerif.Model.PipelineNames.Others := ⟨[], [(none, "CbS"), (none, "S_ms_0")], [(none, "g_r0")]⟩
 
 /-- a defined, non-template function of the given name and shape -/
-def fn (n sh : String) : FnDecl := ⟨n, sh, false, true, none⟩
+def fn (n sh : String) : FnDecl := { name := n, shape := sh, isTemplate := false, hasBody := true, threads := none }
 
 open RsslVerif.Model RsslVerif.Model.PipelineNames in
 /-- non-vacuity, and the program of the seed-1 soak: a method `ms_0` (mesh entry, registry index 2) and a helper
